@@ -214,6 +214,10 @@ def judge_c05(ctx, idx, op, impl, mi, ms, reason):
                 f.append(Finding("property", idx, "encoding reports success although not every octet of the complete frame was handed to the writer", expected="ok " + ms, observed=impl, name="C05_fault"))
             elif op[0] == "encw" and "total" in r and int(op[1]) < int(r["total"]):
                 f.append(Finding("property", idx, "encoding reports success although the writer failed after %s octets" % op[1], expected="err", observed=impl, name="C05_fault"))
+    elif op[0] == "senc":
+        ctx.count("senc_" + impl.split(" ")[0])
+        if mi == "err -" and impl != "err -":
+            f.append(Finding("property", idx, "octets of a message that cannot be represented on the wire reached the stream (or the call reported success)", expected="err -", observed=impl[:200], name="C05_codec_nothing_written"))
     else:
         ctx.count("op_" + op[0] + "_" + impl.split(" ")[0])
     return f
@@ -693,7 +697,7 @@ PROPS = {
     "C02": dict(family="c02", extra=shipped_defs, judge=judge_c02, probes=("rt",), title="Encode then decode returns the same message"),
     "C03": dict(family="c03", judge=judge_c03, probes=("dec", "deca", "decg"), expect_keys=['reason_e_addr', 'reason_e_app', 'reason_e_cmd', 'reason_e_eof', 'reason_e_mismatch', 'reason_e_short', 'reason_e_unknownAvp', 'reason_e_utf8', 'reason_ok_lie0', 'reason_ok_lie1', 'refused_too_deep', 'deca_ok', 'deca_err', 'decg_ok', 'decg_err', 'full', 'notfull'], title="Decoding is faithful"),
     "C04": dict(family="c04", judge=judge_c04, probes=("decq",), expect_keys=['reason_e_addr', 'reason_e_app', 'reason_e_cmd', 'reason_e_eof', 'reason_e_mismatch', 'reason_e_short', 'reason_e_unknownAvp', 'reason_e_utf8', 'reason_e_deep', 'reason_ok', 'depth_32'], title="The decoder is total"),
-    "C05": dict(family="c05", judge=judge_c05, probes=("ench", "encw"), expect_keys=["ench_ok", "ench_err_unrepresentable", "encw_ok", "encw_err", "encw_err_unrepresentable", "encw_fault_inside_frame", "encw_mode_1_2_zero", "encw_mode_0_0_err"], title="Encoding never reports success for a frame it did not fully produce"),
+    "C05": dict(family="c05", judge=judge_c05, probes=("ench", "encw", "senc"), expect_keys=["senc_ok", "senc_err", "ench_ok", "ench_err_unrepresentable", "encw_ok", "encw_err", "encw_err_unrepresentable", "encw_fault_inside_frame", "encw_mode_1_2_zero", "encw_mode_0_0_err"], title="Encoding never reports success for a frame it did not fully produce"),
     "C06": dict(family="c06", judge=judge_c06, probes=("sdec", "senc"), title="Stream framing is independent of how bytes are segmented"),
     "C07": dict(family="c07", judge=judge_c07, probes=("sdec",), expect_keys=["L_gt1MiB_err", "L_inrange_err", "L_inrange_ok", "L_lt20_err"], title="Hostile frame lengths on a stream are refused cheaply and safely"),
     "C08": dict(family="c08", judge=judge_c08, probes=("serve",), expect_keys=["serve_good", "serve_herr", "serve_unencodable", "serve_malformed_kind0", "serve_malformed_kind1", "serve_malformed_kind2", "serve_malformed_kind3"], title="Server answers each request exactly once, in order, unmodified"),
